@@ -821,6 +821,7 @@ func GenOptions(t *rapid.T, p Profile) OptPlan {
 		o.TombDense = rapid.SampledFrom([]int{1, 10, 50}).Draw(t, "tombdense")
 		o.ReadSampling = rapid.SampledFrom([]int{0, 1, -1}).Draw(t, "rsm")
 	}
+	o.FlushDelayMs = rapid.SampledFrom([]int{0, 0, 0, 0, 3, 10000, 3600000}).Draw(t, "fdelay")
 	o.DisableWAL = rapid.IntRange(0, 5).Draw(t, "nowal") == 0
 	o.WALDir = rapid.IntRange(0, 3).Draw(t, "waldir") == 0
 	o.DisableAutoCompaction = rapid.IntRange(0, 5).Draw(t, "noauto") == 0
@@ -857,6 +858,9 @@ func Generate(t *rapid.T, p Profile) Plan {
 	if spct > 0 && rapid.IntRange(0, 99).Draw(t, "schedon") < spct {
 		sp = &SchedPlan{Salt: rapid.IntRange(1, 1<<20).Draw(t, "schedsalt"), Pct: rapid.SampledFrom([]int{10, 30, 60}).Draw(t, "schedpct"),
 			Max: rapid.SampledFrom([]int{4, 30, 200}).Draw(t, "schedmax")}
+		if p.CrashGen != nil && rapid.IntRange(0, 2).Draw(t, "holdman") == 0 {
+			sp.HoldManifest = rapid.IntRange(1, 5).Draw(t, "holdmank")
+		}
 	}
 	n := rapid.IntRange(p.MinSteps, p.MaxSteps).Draw(t, "nsteps")
 	for i := 0; i < n; i++ {
